@@ -3,6 +3,7 @@ package rules
 import (
 	"fmt"
 	"go/ast"
+	"go/constant"
 	"go/token"
 	"go/types"
 	"sort"
@@ -253,6 +254,10 @@ func runC04(c *Ctx) {
 	c.r0422(pk)
 	c.r0424(pk)
 	c.r0425(pk)
+	c.r0426(pk)
+	c.r0427(pk, "R04.27")
+	c.r0428(pk)
+	c.r0429(pk)
 	// positions remembered while rewriting a value list (background layers) stay valid: same rule as R10.5, css only
 	c.alsoUnder(map[string]string{"R10.5": "R04.8"}, func(construct string) bool {
 		return strings.HasPrefix(construct, "css.") || strings.HasPrefix(construct, "floor/")
@@ -485,10 +490,14 @@ func runC09(c *Ctx) {
 	// a declaration that ends in a dangling `/` is not valid CSS
 	if pk := c.P.Pkg("css"); pk != nil {
 		c.alsoUnder(map[string]string{"R04.18": "R09.19"}, nil, func() { c.r0418(pk) })
+		c.r0427(pk, "R09.28")
 	}
 	// `]]>` in the character data of XML / SVG output is not well-formed
 	c.r069("R09.16", "xml")
 	c.r069("R09.17", "svg")
+	if pk := c.P.Pkg("svg"); pk != nil {
+		c.r0526(pk, "R09.27")
+	}
 }
 
 func runC09own(c *Ctx) {
@@ -588,6 +597,7 @@ func runC09own(c *Ctx) {
 	c.r0923(pk)
 	c.r0924(pk)
 	c.r0925(pk)
+	c.r0148(pk, "R09.26")
 }
 
 // R09.4: `1.a` is not a member access — a property written after a number needs the integer test.
@@ -1912,4 +1922,281 @@ func (c *Ctx) r0425(pk *packages.Package) {
 		}
 	}
 	c.R.Floor(rule, "recursive calls of minifyTokens", n, 1)
+}
+
+// R04.26: values are removed from a box-shadow by position only when every item's kind is known.
+func (c *Ctx) r0426(pk *packages.Package) {
+	const rule = "R04.26"
+	c.R.Rule(rule, "cssMinifier.minifyProperty, case Box_Shadow, removes the blur and spread of a shadow when they are zero; which value is the blur is decided by counting the lengths of the list item. var(), attr() and env() stand for anything — the colour, or several lengths — and Token.IsLength counts them as one length: `box-shadow:var(--c) 0 0 0` (a colour and three lengths) became `var(--c)0`, a shadow without its vertical offset (invalid). In the case clause a test of the items for those functions exists (a condition that mentions the hash constants Var, Attr and Env), and under its true outcome the list of positions that the removals measure (`len(L) == k` in front of each removal) is emptied, or a flag is set whose false outcome dominates every removal")
+	info := pk.TypesInfo
+	fd := c.fn(rule, pk, "cssMinifier.minifyProperty")
+	if fd == nil {
+		return
+	}
+	var clause *ast.CaseClause
+	ast.Inspect(fd.Body, func(x ast.Node) bool {
+		if cc, ok := x.(*ast.CaseClause); ok && clause == nil {
+			for _, e := range cc.List {
+				if id, ok := ast.Unparen(e).(*ast.Ident); ok && id.Name == "Box_Shadow" {
+					if _, isK := info.Uses[id].(*types.Const); isK {
+						clause = cc
+					}
+				}
+			}
+		}
+		return true
+	})
+	if clause == nil {
+		c.R.Unres(rule, "css.cssMinifier.minifyProperty/case Box_Shadow", c.pos(fd), "case not found")
+		return
+	}
+	g := c.graph(pk, fd)
+	mentions := func(e ast.Node, names ...string) bool {
+		seen := map[string]bool{}
+		ast.Inspect(e, func(z ast.Node) bool {
+			if id, ok := z.(*ast.Ident); ok {
+				if _, isK := info.Uses[id].(*types.Const); isK {
+					seen[id.Name] = true
+				}
+			}
+			return true
+		})
+		for _, n := range names {
+			if !seen[n] {
+				return false
+			}
+		}
+		return true
+	}
+	// the veto: an if inside the clause whose condition names the three substitution functions
+	var veto *ast.IfStmt
+	ast.Inspect(clause, func(x ast.Node) bool {
+		if ifs, ok := x.(*ast.IfStmt); ok && veto == nil && mentions(ifs.Cond, "Var", "Attr", "Env") {
+			veto = ifs
+		}
+		return true
+	})
+	emptied := map[types.Object]bool{}
+	flags := map[types.Object]bool{}
+	if veto != nil {
+		ast.Inspect(veto.Body, func(x ast.Node) bool {
+			as, ok := x.(*ast.AssignStmt)
+			if !ok || len(as.Lhs) != 1 || len(as.Rhs) != 1 {
+				return true
+			}
+			id, ok := as.Lhs[0].(*ast.Ident)
+			if !ok {
+				return true
+			}
+			o := info.Uses[id]
+			switch r := ast.Unparen(as.Rhs[0]).(type) {
+			case *ast.SliceExpr:
+				if v, isK := intConst(info, r.High); r.High != nil && isK && v == 0 && nospace(str(r.X)) == id.Name {
+					emptied[o] = true
+				}
+			case *ast.Ident:
+				if r.Name == "nil" {
+					emptied[o] = true
+				}
+				if r.Name == "true" {
+					flags[o] = true
+				}
+			}
+			return true
+		})
+	}
+	n := 0
+	for _, y := range g.Nodes {
+		as, ok := y.Stmt.(*ast.AssignStmt)
+		if !ok || y.Kind != flow.KStmt || len(as.Lhs) != 1 || len(as.Rhs) != 1 || c.caseLabel(as) != "case Box_Shadow" {
+			continue
+		}
+		call, ok := ast.Unparen(as.Rhs[0]).(*ast.CallExpr)
+		if !ok || str(call.Fun) != "append" || len(call.Args) != 2 || !call.Ellipsis.IsValid() {
+			continue
+		}
+		if _, isSl := ast.Unparen(call.Args[0]).(*ast.SliceExpr); !isSl {
+			continue
+		}
+		n++
+		good := false
+		for _, f := range g.DomFacts(y) {
+			if f.Test.Kind != flow.KCond {
+				continue
+			}
+			e := ast.Unparen(f.Test.Expr)
+			if be, ok := e.(*ast.BinaryExpr); ok && f.Value && be.Op == token.EQL {
+				for _, side := range []ast.Expr{be.X, be.Y} {
+					if ce, ok := ast.Unparen(side).(*ast.CallExpr); ok && str(ce.Fun) == "len" && len(ce.Args) == 1 {
+						if id, ok := ast.Unparen(ce.Args[0]).(*ast.Ident); ok && emptied[info.Uses[id]] {
+							good = true
+						}
+					}
+				}
+			}
+			if id, ok := e.(*ast.Ident); ok && !f.Value && flags[info.Uses[id]] {
+				good = true
+			}
+			if u, ok := e.(*ast.UnaryExpr); ok && u.Op == token.NOT && f.Value {
+				if id, ok := ast.Unparen(u.X).(*ast.Ident); ok && flags[info.Uses[id]] {
+					good = true
+				}
+			}
+		}
+		c.R.Check(veto != nil && good, rule, fmt.Sprintf("css.cssMinifier.minifyProperty/case Box_Shadow/removal#%d only from a shadow without substitution functions", n), c.pos(as), "the positions it measures are emptied under the test for var(), attr(), env()",
+			"a zero is removed from a shadow by counting its lengths although an item may be var(), attr() or env(), which Token.IsLength counts as one length whatever it stands for: `box-shadow:var(--c) 0 0 0` → `box-shadow:var(--c)0`")
+	}
+	c.R.Floor(rule, "removals of a zero blur or spread", n, 2)
+}
+
+// R04.27 (= R09.28): white space is trimmed from the end of a URL only when it is not escaped.
+func (c *Ctx) r0427(pk *packages.Package, rule string) {
+	c.R.Rule(rule, "`@import url(a\\ )` names the URL `a ` — the backslash escapes the space. cssMinifier.minifyGrammar rewrites `@import url(x)` to `@import \"x\"` and trims white space inside the parentheses by walking an index backwards; a trimmed escaped space left the backslash in front of the closing quote (`@import \"a\\\"`), an unterminated string. Every loop of minifyGrammar that steps an index backwards over white space (parse.IsWhitespace / parse.IsNewline in its condition, a decrement in its body) compares a byte with the backslash")
+	fd := c.fn(rule, pk, "cssMinifier.minifyGrammar")
+	if fd == nil {
+		return
+	}
+	info := pk.TypesInfo
+	n := 0
+	ast.Inspect(fd.Body, func(x ast.Node) bool {
+		fs, ok := x.(*ast.ForStmt)
+		if !ok || fs.Cond == nil {
+			return true
+		}
+		ws := false
+		ast.Inspect(fs.Cond, func(z ast.Node) bool {
+			if ce, ok := z.(*ast.CallExpr); ok && strings.HasSuffix(calleeName(info, ce), ".IsWhitespace") {
+				ws = true
+			}
+			return true
+		})
+		dec := false
+		for _, st := range fs.Body.List {
+			if ids, ok := st.(*ast.IncDecStmt); ok && ids.Tok == token.DEC {
+				dec = true
+			}
+		}
+		if ids, ok := fs.Post.(*ast.IncDecStmt); ok && ids.Tok == token.DEC {
+			dec = true
+		}
+		if !ws || !dec {
+			return true
+		}
+		n++
+		chars, _, _ := c.constsIn(pk, fs)
+		c.R.Check(chars['\\'], rule, fmt.Sprintf("css.cssMinifier.minifyGrammar/backward trim#%d stops at an escaped space", n), c.pos(fs), "the loop compares a byte with the backslash",
+			"white space is trimmed from the end of the URL without a look at the byte in front of it: `@import url(a\\ );` becomes `@import \"a\\\"`, an unterminated string")
+		return true
+	})
+	c.R.Floor(rule, "backward trims in minifyGrammar", n, 1)
+}
+
+// R04.28: minify.Decimal only sees numbers that are written without an exponent.
+func (c *Ctx) r0428(pk *packages.Package) {
+	const rule = "R04.28"
+	c.R.Rule(rule, "minify.Decimal minifies a decimal and `does not parse or output exponents`: given `1.26e10` it takes the digits of the exponent for decimals and removes its trailing zero (`1.26e1`), with a precision it rounds across the `e`. CSS3 numbers may be written with an exponent, and with KeepCSS2 package css sends every number to Decimal. Every call of minify.Decimal in package css is dominated by the false outcomes of tests of its argument for the bytes 'e' and 'E'")
+	info := pk.TypesInfo
+	n := 0
+	for _, fd := range load.FuncDecls(pk) {
+		if fd.Body == nil {
+			continue
+		}
+		calls := findCalls(info, fd.Body, false, load.Mod+".Decimal")
+		if len(calls) == 0 {
+			continue
+		}
+		g := c.graph(pk, fd)
+		for _, call := range calls {
+			if len(call.Args) < 1 {
+				continue
+			}
+			n++
+			arg := nospace(str(call.Args[0]))
+			seen := map[rune]bool{}
+			if y := g.NodeOf(call); y != nil {
+				for _, f := range g.DomFacts(y) {
+					if f.Test.Kind != flow.KCond {
+						continue
+					}
+					be, ok := ast.Unparen(f.Test.Expr).(*ast.BinaryExpr)
+					if !ok {
+						continue
+					}
+					for _, side := range []ast.Expr{be.X, be.Y} {
+						ce, ok := ast.Unparen(side).(*ast.CallExpr)
+						if !ok || calleeName(info, ce) != "bytes.IndexByte" || len(ce.Args) != 2 || nospace(str(ce.Args[0])) != arg {
+							continue
+						}
+						// `IndexByte(x, c) != -1` false, or `IndexByte(x, c) == -1` true: the byte does not occur
+						absent := be.Op == token.NEQ && !f.Value || be.Op == token.EQL && f.Value
+						if chars, _, _ := c.constsIn(pk, ce.Args[1]); absent {
+							for ch := range chars {
+								seen[ch] = true
+							}
+						}
+					}
+				}
+			}
+			c.R.Check(seen['e'] && seen['E'], rule, fmt.Sprintf("css.%s/minify.Decimal#%d only for a number without an exponent", load.FuncName(fd), n), c.pos(call), "behind tests that "+arg+" holds neither 'e' nor 'E'",
+				"a number that may be written with an exponent is handed to minify.Decimal, which does not know exponents: with KeepCSS2 `width:1.26e10px` becomes `width:1.26e1px`, `00e3px` becomes `e3px`")
+		}
+	}
+	c.R.Floor(rule, "calls of minify.Decimal", n, 1)
+}
+
+// R04.29: the hue handed to the colour conversion lies in [0,1).
+func (c *Ctx) r0429(pk *packages.Package) {
+	const rule = "R04.29"
+	c.R.Rule(rule, "cssMinifier.minifyTokens turns hsl()/hsla() into a hex colour: the hue is divided by 360 and reduced with math.Modf, which keeps the sign — for a negative hue the fraction lies in (-1,0]. css.HSL2RGB of the dependency adds 1 at most once per channel, after having subtracted 1/3 for blue: hues between -360 and -240 degrees gave a negative blue channel. On every path from the assignment of the Modf fraction to the call of HSL2RGB lies a test of that value against 0 (the wrap into [0,1))")
+	info := pk.TypesInfo
+	fd := c.fn(rule, pk, "cssMinifier.minifyTokens")
+	if fd == nil {
+		return
+	}
+	g := c.graph(pk, fd)
+	n := 0
+	for _, y := range g.Nodes {
+		as, ok := y.Stmt.(*ast.AssignStmt)
+		if !ok || y.Kind != flow.KStmt || len(as.Rhs) != 1 || len(as.Lhs) != 2 {
+			continue
+		}
+		ce, ok := ast.Unparen(as.Rhs[0]).(*ast.CallExpr)
+		if !ok || calleeName(info, ce) != "math.Modf" {
+			continue
+		}
+		frac := nospace(str(as.Lhs[1]))
+		// the calls of HSL2RGB that take the fraction as their hue
+		for _, z := range g.Nodes {
+			a := z.Ast()
+			if a == nil || z.Kind != flow.KStmt {
+				continue
+			}
+			for _, call := range findCalls(info, a, false, load.ParseMod+"/css.HSL2RGB") {
+				if len(call.Args) < 1 || nospace(str(call.Args[0])) != frac {
+					continue
+				}
+				n++
+				z := z
+				wraps := func(q *flow.Node) bool {
+					if q.Kind != flow.KCond {
+						return false
+					}
+					be, ok := ast.Unparen(q.Expr).(*ast.BinaryExpr)
+					if !ok {
+						return false
+					}
+					isZero := func(e ast.Expr) bool {
+						tv, ok := info.Types[e]
+						return ok && tv.Value != nil && constant.Sign(tv.Value) == 0
+					}
+					return (be.Op == token.LSS || be.Op == token.GTR || be.Op == token.LEQ || be.Op == token.GEQ) &&
+						(nospace(str(be.X)) == frac && isZero(be.Y) || nospace(str(be.Y)) == frac && isZero(be.X))
+				}
+				p := g.Path(flow.Search{From: []*flow.Node{y}, Goal: func(q *flow.Node) bool { return q == z }, Avoid: wraps})
+				c.R.Check(p == nil, rule, fmt.Sprintf("css.cssMinifier.minifyTokens/hue#%d wrapped into [0,1) before the conversion", n), c.pos(call), "a test of "+frac+" against 0 lies between math.Modf and HSL2RGB",
+					"the fraction that math.Modf returns for a negative hue is negative and goes into HSL2RGB as it is: `hsl(-285 100% 50%)` gets a garbage blue channel (#bfff42 instead of #bfff00)")
+			}
+		}
+	}
+	c.R.Floor(rule, "hues converted with HSL2RGB", n, 1)
 }
